@@ -482,8 +482,18 @@ var rR19w = RuleRef{Name: "R19w", Doc: "no wrap-around on client integers: an in
 				}
 				le0 := func(v ssa.Value) bool { return pr.ProveLE(pr.lin(v), zero, 0, x) }
 				ge0 := func(v ssa.Value) bool { return clockValue(v) || pr.ProveLE(zero, pr.lin(v), 0, x) }
-				leBig := func(v ssa.Value) bool { return small(v) || clockValue(v) || pr.ProveLE(pr.lin(v), zero, big, x) }
-				geBig := func(v ssa.Value) bool { return small(v) || clockValue(v) || pr.ProveLE(zero, pr.lin(v), big, x) }
+				vouched := func(v ssa.Value, above bool) bool {
+					if fv := recordFieldOf(v); fv != nil {
+						return fieldGuarded(fv, fn, above)
+					}
+					return false
+				}
+				leBig := func(v ssa.Value) bool {
+					return small(v) || clockValue(v) || vouched(v, true) || pr.ProveLE(pr.lin(v), zero, big, x)
+				}
+				geBig := func(v ssa.Value) bool {
+					return small(v) || clockValue(v) || vouched(v, false) || pr.ProveLE(zero, pr.lin(v), big, x)
+				}
 				var okHi, okLo bool
 				if x.Op == token.ADD {
 					okHi = le0(x.X) || le0(x.Y) || (leBig(x.X) && leBig(x.Y))
@@ -563,4 +573,196 @@ func parsesSomewhere(fn *ssa.Function) bool {
 		}
 	}
 	return false
+}
+
+// fieldGuarded: every parsed value stored into record field fv (anywhere in its package) is range-checked by the function
+// that stores it: that function compares the stored value, or a load of the same field, with a constant of at most 2^62
+// in magnitude, and the out-of-range outcome of the comparison reaches no return that reports success (last result nil).
+// above=true asks for an upper bound, false for a lower one. This is how an options parser that fills a record
+// (parseSetOptions) vouches for the numbers the executor adds up later.
+func fieldGuarded(fv *types.Var, from *ssa.Function, above bool) bool {
+	fs := storesIntoField(fv, from)
+	if fs.escapes || len(fs.vals) == 0 {
+		return false
+	}
+	const big = int64(1) << 62
+	for _, sv := range fs.vals {
+		if !derivesFromParseD(sv, 1) {
+			if _, isC := sv.(*ssa.Const); isC {
+				continue
+			}
+			if !derivesFromParseD(sv, 0) {
+				continue
+			}
+		}
+		in, ok := sv.(ssa.Instruction)
+		if !ok {
+			return false
+		}
+		g := in.Parent()
+		// the values that stand for the stored number in g: sv itself and loads of the field
+		stands := func(v ssa.Value) bool {
+			for {
+				if cv, ok := v.(*ssa.Convert); ok {
+					v = cv.X
+					continue
+				}
+				break
+			}
+			if v == sv {
+				return true
+			}
+			if u, ok := v.(*ssa.UnOp); ok && u.Op == token.MUL {
+				if fa, ok := u.X.(*ssa.FieldAddr); ok {
+					if pt, ok := fa.X.Type().Underlying().(*types.Pointer); ok {
+						if st, ok := pt.Elem().Underlying().(*types.Struct); ok && fa.Field < st.NumFields() && st.Field(fa.Field) == fv {
+							return true
+						}
+					}
+				}
+			}
+			return false
+		}
+		succeeds := func(b *ssa.BasicBlock) bool {
+			seen := map[*ssa.BasicBlock]bool{}
+			var dfs func(x *ssa.BasicBlock) bool
+			dfs = func(x *ssa.BasicBlock) bool {
+				if seen[x] {
+					return false
+				}
+				seen[x] = true
+				if ret, ok := x.Instrs[len(x.Instrs)-1].(*ssa.Return); ok {
+					if len(ret.Results) == 0 {
+						return true
+					}
+					rr := retResults(ret)
+					for _, v := range rr[len(rr)-1] {
+						if isNilConst(v) {
+							return true
+						}
+						if _, isC := v.(*ssa.Const); !isC {
+							if _, isCall := v.(*ssa.Call); !isCall {
+								if _, isMI := v.(*ssa.MakeInterface); !isMI {
+									return true // a computed last result: may be success
+								}
+							}
+						}
+					}
+					return false
+				}
+				for _, s := range x.Succs {
+					if dfs(s) {
+						return true
+					}
+				}
+				return false
+			}
+			return dfs(b)
+		}
+		guarded := false
+		for _, b := range g.Blocks {
+			iff, ok := b.Instrs[len(b.Instrs)-1].(*ssa.If)
+			if !ok {
+				continue
+			}
+			// the comparisons that decide this branch (through || and && phis)
+			var cmps []*ssa.BinOp
+			seenV := map[ssa.Value]bool{}
+			var collect func(v ssa.Value)
+			collect = func(v ssa.Value) {
+				if seenV[v] {
+					return
+				}
+				seenV[v] = true
+				switch x := v.(type) {
+				case *ssa.BinOp:
+					cmps = append(cmps, x)
+				case *ssa.Phi:
+					for _, e := range x.Edges {
+						collect(e)
+					}
+				}
+			}
+			collect(iff.Cond)
+			for _, bo := range cmps {
+				var k int64
+				var kOK, numLeft bool
+				if c, ok := constInt(bo.Y); ok && stands(bo.X) {
+					k, kOK, numLeft = c, true, true
+				} else if c, ok := constInt(bo.X); ok && stands(bo.Y) {
+					k, kOK, numLeft = c, true, false
+				}
+				if !kOK || k > big || k < -big {
+					continue
+				}
+				op := bo.Op
+				if !numLeft { // c op x  ==  x op' c
+					switch op {
+					case token.LSS:
+						op = token.GTR
+					case token.LEQ:
+						op = token.GEQ
+					case token.GTR:
+						op = token.LSS
+					case token.GEQ:
+						op = token.LEQ
+					}
+				}
+				// which outcome is "out of range" on the side asked for
+				var outEdge int // index into Succs of the out-of-range outcome of this comparison being true (0) or false (1)
+				switch {
+				case above && (op == token.GTR || op == token.GEQ):
+					outEdge = 0
+				case above && (op == token.LSS || op == token.LEQ):
+					outEdge = 1
+				case !above && (op == token.LSS || op == token.LEQ):
+					outEdge = 0
+				case !above && (op == token.GTR || op == token.GEQ):
+					outEdge = 1
+				default:
+					continue
+				}
+				if ssa.Value(bo) == iff.Cond {
+					if !succeeds(b.Succs[outEdge]) {
+						guarded = true
+					}
+				} else if outEdge == 0 {
+					// an operand of a || chain: the branch is taken to its true side when this comparison holds
+					if !succeeds(b.Succs[0]) {
+						guarded = true
+					}
+				}
+			}
+		}
+		if !guarded {
+			return false
+		}
+	}
+	return true
+}
+
+// recordFieldOf: v is a load of (or a Field access to) an integer field of a first-party record; the field.
+func recordFieldOf(v ssa.Value) *types.Var {
+	for {
+		if cv, ok := v.(*ssa.Convert); ok {
+			v = cv.X
+			continue
+		}
+		break
+	}
+	switch y := v.(type) {
+	case *ssa.UnOp:
+		if fa, ok := y.X.(*ssa.FieldAddr); ok && y.Op == token.MUL {
+			if pt, ok := fa.X.Type().Underlying().(*types.Pointer); ok {
+				if st, ok := pt.Elem().Underlying().(*types.Struct); ok && fa.Field < st.NumFields() && firstPartyType(pt.Elem()) {
+					return st.Field(fa.Field)
+				}
+			}
+		}
+	case *ssa.Field:
+		if st, ok := y.X.Type().Underlying().(*types.Struct); ok && y.Field < st.NumFields() && firstPartyType(y.X.Type()) {
+			return st.Field(y.Field)
+		}
+	}
+	return nil
 }
